@@ -123,9 +123,32 @@ REF_SAMPLES = {"object": [{"z": 1}, {"z": 2, "day": "2020-01-02", "x": 1}], "enu
                "array_obj": [[], [{"q": "s"}, {}]], "str": ["s"], "date": ["2020-01-02"], "nested": [{}, {"inner": {"v": 1.5}}]}
 
 
-def doc_part2(pos, kind, inline):
+NAMING2 = {"plain": ("M", "Comp"), "suffix": ("Pet", "NewPet"), "prefix": ("ItemBase", "Item"), "suffix-rev": ("NewPet", "Pet")}
+
+
+def doc_part2(pos, kind, inline, naming="plain", order="comp-first", siblings=False):
+    """naming: (holder, component) names, unrelated or one a suffix / prefix of the other; order: which is declared first;
+    siblings: the reference object carries sibling keywords (description + example), legal in 3.1 and without effect."""
+    d = _doc_part2(pos, kind, inline, siblings)
+    if d is None:
+        return None
+    hold, comp = NAMING2[naming]
+    if naming != "plain" or order != "comp-first":
+        text = json.dumps(d)
+        text = text.replace(R + "Comp", R + "\u0000C").replace('"Comp":', '"\u0000C":').replace(R + "M\"", R + "\u0000M\"").replace('"M":', '"\u0000M":')
+        text = text.replace("\u0000C", comp).replace("\u0000M", hold)
+        d = json.loads(text)
+        s = d.get("components", {}).get("schemas")
+        if s and order == "holder-first":
+            d["components"]["schemas"] = {k: s[k] for k in sorted(s, key=lambda k: 0 if k == hold else 1)}
+    return d
+
+
+def _doc_part2(pos, kind, inline, siblings=False):
     comp = copy.deepcopy(REF_KINDS[kind])
     sch = copy.deepcopy(comp) if inline else {"$ref": R + "Comp"}
+    if siblings:
+        sch = dict(sch, description="a described use", example=REF_SAMPLES[kind][0])
     comps = {} if inline else {"Comp": comp}
     paths = {}
     if pos == "prop":
@@ -295,6 +318,13 @@ def cases(tier):
             if doc_part2(pos, kind, True) is None:
                 continue
             yield {"labels": [f"schema-pos={pos}", f"kind={kind}"], "payload": {"part": 2, "pos": pos, "kind": kind}}
+            yield {"labels": [f"schema-pos={pos}", f"kind={kind}", "ref-with-siblings"], "payload": {"part": 2, "pos": pos, "kind": kind, "siblings": True}}
+            if pos in ("prop", "item", "union", "addl", "allof"):
+                for naming in NAMING2:
+                    for order in ("comp-first", "holder-first"):
+                        if (naming, order) != ("plain", "comp-first"):
+                            yield {"labels": [f"schema-pos={pos}", f"kind={kind}", f"names={naming}", order],
+                                   "payload": {"part": 2, "pos": pos, "kind": kind, "naming": naming, "order": order}}
     yield {"labels": ["class-sharing"], "payload": {"part": "sharing"}}
     # part 3
     for s in MALFORMED:
@@ -356,20 +386,32 @@ def _first_diff(x, y):
     return f"length {len(xs)} vs {len(ys)} lines"
 
 
-def _behaviour(res, pos, kind):
+def _behaviour(res, pos, kind, holder="M"):
     """JSON-able behaviour of one variant: round trips of the holder model, or wire/parsed observations."""
     from checks.c02 import find_class
     from checks.c04 import reencode
     out = []
     with Sandbox(res.pkg_tree()) as sb:
         if pos in ("prop", "item", "union", "addl", "allof"):
-            cls = find_class(res, sb, "M")
+            cls = find_class(res, sb, holder)
             if cls is None:
                 return None
+            def cat(v):      # what kind of Python value the decoder built (class names differ legitimately, categories must not)
+                import enum
+                if isinstance(v, enum.Enum):
+                    return "enum"
+                if hasattr(v, "to_dict") and not isinstance(v, dict):
+                    return "model"
+                if isinstance(v, list):
+                    return ["list"] + sorted({json.dumps(cat(x)) for x in v})
+                if isinstance(v, dict):
+                    return ["dict"] + sorted({json.dumps(cat(x)) for x in v.values()})
+                return type(v).__name__
             for inst in instances_part2(pos, kind):
                 try:
                     o = cls.from_dict(copy.deepcopy(inst))
-                    out.append(["ok", o.to_dict()])
+                    held = getattr(o, "p", None) if pos != "addl" else dict(getattr(o, "additional_properties", {}))
+                    out.append(["ok", o.to_dict(), cat(held)])
                 except Exception as exc:  # noqa: BLE001
                     out.append(["raises", type(exc).__name__])
             return out
@@ -401,9 +443,10 @@ def _behaviour(res, pos, kind):
 
 def _part2(p):
     pos, kind = p["pos"], p["kind"]
-    a = gen.generate(doc_part2(pos, kind, True))
-    b = gen.generate(doc_part2(pos, kind, False))
-    key = f"{pos}/{kind}"
+    naming, order, sib = p.get("naming", "plain"), p.get("order", "comp-first"), p.get("siblings", False)
+    a = gen.generate(doc_part2(pos, kind, True, naming, order, sib))
+    b = gen.generate(doc_part2(pos, kind, False, naming, order, sib))
+    key = f"{pos}/{kind}" + ("/ref-siblings" if sib else "") + (f"/{naming}" if naming != "plain" else "")
     for r in (a, b):
         if r.crash:
             return {"skipped_crash": True, "outcome": f"crash:{r.crash['type']}@{r.crash['where']}", "nontrivial": False}
@@ -411,7 +454,7 @@ def _part2(p):
         return {"outcome": "rejected", "nontrivial": False}
     viol = []
     try:
-        ba, bb = _behaviour(a, pos, kind), _behaviour(b, pos, kind)
+        ba, bb = _behaviour(a, pos, kind, NAMING2[naming][0]), _behaviour(b, pos, kind, NAMING2[naming][0])
     except ImportError as exc:
         return {"outcome": f"import-fails:{exc}", "nontrivial": False}
     if ba is None and bb is None:
